@@ -3,7 +3,7 @@ package main
 // tcwatch: ONE program text (hex argument), process.Typecheck called in the main goroutine of this
 // fresh OS process under a 10 s watchdog, then the process is kept alive for N ms and observed:
 //   VERDICT <ACCEPT|REJECT|REJECT-INTERNAL|PARSE-ERR|HANG> [phase=<class of the error message>]
-//   LEFTOVER base=<goroutines before the call> before=<right after the return> after=<N ms later>
+//   LEFTOVER base=<goroutines before the call> before=<right after the return> after=<N ms later> grace_ms=<extra wait used>
 //   INSIDE <n> <function[state]; ...>      goroutines still inside grits/process after the wait
 // Exit code 0.  A crash that happens later than the verdict (a leaked worker overflowing its stack,
 // a panic in a goroutine Typecheck left behind) kills this process: non-zero exit AFTER the VERDICT line.
@@ -129,6 +129,15 @@ func tcwatch(args []string) {
 	time.Sleep(time.Duration(waitMs) * time.Millisecond)
 	after := runtime.NumGoroutine()
 	inside := insideProcess()
-	fmt.Printf("LEFTOVER base=%d before=%d after=%d\n", base, before, after)
+	// On a loaded machine the worker may simply not have been scheduled yet: before reporting a
+	// leftover, give it a grace period (a blocked worker stays, a runaway one stays or crashes us)
+	grace := 0
+	for (after > base || len(inside) > 0) && grace < 10*waitMs+3000 {
+		time.Sleep(50 * time.Millisecond)
+		grace += 50
+		after = runtime.NumGoroutine()
+		inside = insideProcess()
+	}
+	fmt.Printf("LEFTOVER base=%d before=%d after=%d grace_ms=%d\n", base, before, after, grace)
 	fmt.Printf("INSIDE %d %s\n", len(inside), strings.Join(inside, "; "))
 }
